@@ -136,6 +136,72 @@ Section WithEnv.
       exists st', r, []. split; [exact E|]. right. exact Z.
   Qed.
 
+  (* ---------- program header table ---------- *)
+  Lemma read_short_fails st (pos : N) n :
+    is_fail st = false -> st_inv st -> pos < 2 ^ 63 -> lenN (is_content st) < pos + n -> 0 < n ->
+    is_fail (fst (read (seekg st (to_signed64 pos)) n)) = true.
+  Proof.
+    intros Hf Hi Hp Hout Hn. destruct (to_of_signed pos Hp) as [T1 T2].
+    unfold seekg. rewrite Hf. destruct (Z.ltb_spec (to_signed64 pos) 0); [lia|]. rewrite T1.
+    assert (Hs : forall st2, is_fail st2 = false -> is_content st2 = is_content st -> is_pos st2 = pos -> is_fail (fst (read st2 n)) = true).
+    { intros st2 Hf2 Hc Hps. unfold read. rewrite Hf2.
+      assert (L : lenN (sliceN (is_content st2) (is_pos st2) n) < n).
+      { unfold sliceN. rewrite lenN_firstnN, lenN_skipnN, Hc, Hps. lia. }
+      destruct (N.ltb_spec (lenN (sliceN (is_content st2) (is_pos st2) n)) n); [reflexivity|lia]. }
+    destruct (is_kind st).
+    - destruct (N.ltb_spec (is_len st) pos).
+      + unfold read. reflexivity.
+      + apply Hs; reflexivity.
+    - apply Hs; reflexivity.
+  Qed.
+
+  Lemma seg_load_data_keeps_failure st0 t g sto g1 ok al :
+    is_fail st0 = true -> seg_load_data (Some st0) t g = Ok (sto, g1, ok, al) -> exists st1, sto = Some st1 /\ is_fail st1 = true.
+  Proof.
+    intros Hf H. unfold seg_load_data in H.
+    destruct (_ || _); [injection H as <- _ _ _; eauto|].
+    destruct (_ <? _); [injection H as <- _ _ _; eauto|].
+    destruct (_ || _); [injection H as <- _ _ _; eauto|].
+    destruct (_ <? _); [injection H as <- _ _ _; eauto|].
+    rewrite (seekg_failed st0 _ Hf), (read_failed st0 _ Hf) in H. rewrite Hf in H. injection H as <- _ _ _. eauto.
+  Qed.
+
+  (* a program header entry that is not completely inside the stream leaves the stream failed ... *)
+  Theorem segment_load_cut_entry_fails st enc c (pos : N) lazy st1 g1 ok al :
+    is_fail st = false -> st_inv st -> pos < 2 ^ 63 -> lenN (is_content st) < pos + phdr_size c ->
+    segment_load st [] enc (new_segment c) (Z.of_N pos) lazy = Ok (st1, g1, ok, al) -> is_fail st1 = true.
+  Proof.
+    intros Hf Hi Hp Hout H. unfold segment_load in H. cbn [xlat_empty xlat_apply] in H.
+    assert (E1 : seekg_end st = mkIstream (is_kind st) (is_content st) (is_len st) false (is_len st)).
+    { unfold seekg_end. now rewrite Hf. }
+    rewrite E1 in H. set (stA := mkIstream (is_kind st) (is_content st) (is_len st) false (is_len st)) in *.
+    assert (Hz : Z.of_N pos = to_signed64 pos).
+    { unfold to_signed64. rewrite N.mod_small by lia. destruct (N.ltb_spec pos (2 ^ 63)); lia. }
+    rewrite Hz in H. change (g_cls (new_segment c)) with c in H.
+    pose proof (read_short_fails stA pos (phdr_size c) eq_refl Hi Hp Hout ltac:(destruct c; vm_compute; reflexivity)) as Hsh.
+    destruct (read (seekg stA (to_signed64 pos)) (phdr_size c)) as [st3 got] eqn:ER. cbn [fst] in Hsh.
+    destruct (lazy || _); [now injection H as <- _ _ _|].
+    destruct (seg_load_data (Some st3) [] _) as [[[[sto g2] ok2] al2]|] eqn:El; cbn [bind] in H; [|discriminate].
+    destruct (seg_load_data_keeps_failure _ _ _ _ _ _ _ Hsh El) as (st4 & -> & F4). now injection H as <- _ _ _.
+  Qed.
+
+  (* ... and the segment loop stops there with "not good": load() reports failure, nothing of the entry is kept *)
+  Theorem load_segments_cut_entry_fails f st secs enc c offset entsize i num lazy racc allocs :
+    is_fail st = false -> st_inv st -> i < num ->
+    table_pos offset i entsize = Z.of_N (Z.to_N (table_pos offset i entsize)) ->
+    Z.to_N (table_pos offset i entsize) < 2 ^ 63 ->
+    lenN (is_content st) < Z.to_N (table_pos offset i entsize) + phdr_size c ->
+    forall r, load_segments_loop (S f) st [] secs enc c offset entsize i num lazy racc allocs = Ok r ->
+    snd (fst r) = false /\ snd (fst (fst r)) = racc.
+  Proof.
+    intros Hf Hi Hlt Hpos Hp Hout r H. cbn [load_segments_loop] in H.
+    destruct (N.ltb_spec i num); [|lia].
+    destruct (segment_load st [] enc (new_segment c) (table_pos offset i entsize) lazy) as [[[[st1 g1] ok] al]|] eqn:E;
+      cbn [bind] in H; [|discriminate].
+    rewrite Hpos in E. pose proof (segment_load_cut_entry_fails _ _ _ _ _ _ _ _ _ Hf Hi Hp Hout E) as F1.
+    rewrite F1, orb_true_r in H. injection H as <-. split; reflexivity.
+  Qed.
+
   (* C17: the header of a truncated file.  Whatever prefix of a file with a decodable header is loaded, either the
      load reports failure, or the object reports exactly the header the complete file yields *)
   Theorem prefix_header_absent_or_identical el k (f : bytes) n lazy h :
